@@ -17,6 +17,7 @@ import (
 	"go/printer"
 	"go/token"
 	"os"
+	"path/filepath"
 	"regexp"
 	"sort"
 	"strings"
@@ -27,8 +28,9 @@ type c07Def struct {
 	Kind   string   `json:"kind"` // type | let
 	Text   string   `json:"text"`
 	Refs   []string `json:"refs"`
-	PTemps int      `json:"parse_temps"` // _.field shorthands
-	ETemps int      `json:"emit_temps"`  // matches that bind a payload
+	PTemps int      `json:"parse_temps"`      // _.field shorthands
+	ETemps int      `json:"emit_temps"`       // matches that bind a payload
+	Anchor string   `json:"anchor,omitempty"` // extras: the base definition they are placed right after once
 }
 
 func c07GenPool(rng *Rng, n int, tag string) []c07Def {
@@ -36,8 +38,15 @@ func c07GenPool(rng *Rng, n int, tag string) []c07Def {
 	var recs, unions, funs []int // indices
 	for i := 0; i < n; i++ {
 		id := fmt.Sprintf("%s%d", tag, i)
-		k := rng.Intn(12)
+		k := rng.Intn(14)
 		switch {
+		case k >= 12 && i+1 < n:
+			// a package-level value and a function whose parameter type is inferred from it
+			ds = append(ds, c07Def{Name: "gv" + id, Kind: "let", Text: fmt.Sprintf("let gv%s = %d\n", id, i+3)})
+			ds = append(ds, c07Def{Name: "ov" + id, Kind: "let", Refs: []string{"gv" + id},
+				Text: fmt.Sprintf("let ov%s n =\n  n > gv%s\n", id, id)})
+			funs = append(funs, len(ds)-1)
+			i++
 		case k == 10 && i+2 < n:
 			// twin records: identical field names, so an untyped literal resolves by name order
 			// (first by name); the literal-using function refers to BOTH twins
@@ -369,12 +378,44 @@ func c07Run(s *FcSrv, h *c07History) c07Obs {
 	if !r.Ok {
 		return o
 	}
-	for _, txt := range r.Outs {
+	c07Observe(&o, defs)
+	return o
+}
+
+// c07RunProc: the same history through the real fc process (its own argument handling in main.fo)
+func c07RunProc(c *Ctx, dir string, h *c07History) c07Obs {
+	os.RemoveAll(dir)
+	MustWrite(dir+"/mini.foi", MiniFoiText)
+	args := []string{"mini.foi"}
+	defs := map[string]bool{}
+	for _, f := range h.Files {
+		MustWrite(dir+"/"+f.Name, f.src())
+		args = append(args, f.Name)
+		for _, d := range f.Defs {
+			defs[d.Name] = true
+		}
+	}
+	r := c.Fc(dir, args...)
+	o := c07Obs{ok: r.Exit == 0, err: r.Stdout + r.Stderr, files: map[string]string{}, decls: map[string]map[string]string{}, etemp: map[string][]int{}}
+	if !o.ok {
+		return o
+	}
+	gens, _ := filepath.Glob(dir + "/gen_*.go")
+	for _, g := range gens {
+		b, _ := os.ReadFile(g)
+		o.files[filepath.Base(g)] = string(b)
+	}
+	c07Observe(&o, defs)
+	return o
+}
+
+func c07Observe(o *c07Obs, defs map[string]bool) {
+	for _, txt := range o.files {
 		ds, err := c07Decls(txt)
 		if err != nil {
 			o.ok = false
 			o.err = "emitted Go does not parse: " + err.Error()
-			return o
+			return
 		}
 		for k, t := range ds {
 			ow := c07Owner(k, defs)
@@ -393,7 +434,6 @@ func c07Run(s *FcSrv, h *c07History) c07Obs {
 			}
 		}
 	}
-	return o
 }
 
 func c07Histories(rng *Rng, base, extra []c07Def, n int) []*c07History {
@@ -528,6 +568,11 @@ func runC07(c *Ctx) {
 				id := strings.TrimSuffix(strings.TrimSuffix(strings.TrimPrefix(d.Name, "Tw"), "z"), "a")
 				e = append(e, c07Def{Name: fmt.Sprintf("fnx%d_%d", i, di), Kind: "let", Refs: []string{d.Name},
 					Text: fmt.Sprintf("let fnx%d_%d (a:int) =\n  {TX%s=a; TY%s=7}\n", i, di, id, id)})
+			case strings.HasPrefix(d.Name, "gv"):
+				// an unrelated package-level string match whose variable rule binds a name that happens
+				// to be the name of this package-level value (the binder is local to its rule)
+				e = append(e, c07Def{Name: fmt.Sprintf("lb%d_%d", i, di), Kind: "let", Anchor: d.Name,
+					Text: fmt.Sprintf("let md%d_%d = \"fast\"\n\nlet lb%d_%d =\n  match md%d_%d with\n  | \"fast\" -> \"F\"\n  | %s -> \"unknown: \" + %s\n", i, di, i, di, i, di, d.Name, d.Name)})
 			case strings.HasPrefix(d.Name, "Gd"):
 				// an unrelated package_info whose type parameter happens to be called like the
 				// forward-referenced type of the group
@@ -536,7 +581,40 @@ func runC07(c *Ctx) {
 					Text: fmt.Sprintf("package_info _ =\n  let pickFirst%d_%d<Ge%s>: []Ge%s->Ge%s\n", i, di, id, id, id)})
 			}
 		}
+		// an unrelated type that happens to be called like a hoisted type parameter
+		tn := fmt.Sprintf("T%d", rng.Intn(3))
+		e = append(e, c07Def{Name: tn, Kind: "type", Text: fmt.Sprintf("type %s = {Zq%d: int}\n", tn, i)})
 		jobs[i] = job{b, e, c07Histories(rng, b, e, nhist)}
+		// every anchored extra once right after its anchor
+		for _, x := range e {
+			if x.Anchor == "" {
+				continue
+			}
+			var seq []c07Def
+			for _, d := range b {
+				seq = append(seq, d)
+				if d.Name == x.Anchor {
+					seq = append(seq, x)
+				}
+			}
+			jobs[i].hs = append(jobs[i].hs, &c07History{Kind: "insert-adjacent", Files: []c07File{{Name: "all.fo", Defs: seq}}})
+		}
+		// the unrelated T<n> type first
+		jobs[i].hs = append(jobs[i].hs, &c07History{Kind: "insert-first", Files: []c07File{{Name: "all.fo", Defs: append([]c07Def{e[len(e)-1]}, b...)}}})
+		// a .foi file in the middle of the argument list that declares a function over a type defined
+		// in the .fo file before it; the .fo file after it uses that function
+		for di, d := range b {
+			if strings.HasPrefix(d.Name, "Rc") && di+1 < len(b) {
+				nat := c07Def{Name: fmt.Sprintf("natFn%d", i), Kind: "type", Refs: []string{d.Name},
+					Text: fmt.Sprintf("package_info _ =\n  let natFn%d: %s->int\n", i, d.Name)}
+				use := c07Def{Name: fmt.Sprintf("useNat%d", i), Kind: "let", Refs: []string{d.Name, nat.Name},
+					Text: fmt.Sprintf("let useNat%d (r:%s) =\n  (natFn%d r) * 2\n", i, d.Name, i)}
+				jobs[i].hs = append(jobs[i].hs, &c07History{Kind: "foi-between", Files: []c07File{
+					{Name: "part0.fo", Defs: b[:di+1]}, {Name: "nat.foi", Defs: []c07Def{nat}},
+					{Name: "part1.fo", Defs: append(append([]c07Def{}, b[di+1:]...), use)}}})
+				break
+			}
+		}
 		// one forward-reference history per base, when there is a reference to break
 		for di, d := range b {
 			if len(d.Refs) > 0 {
@@ -656,39 +734,84 @@ func runC07(c *Ctx) {
 		}
 	})
 	c.Lap("histories")
-	// real processes: multi-file invocation writes gen_X.go next to each X.fo and nothing for .foi
-	{
-		j := jobs[0]
-		dir := c.Work + "/proc"
-		h := j.hs[len(j.hs)-1]
-		for _, cand := range j.hs {
-			if len(cand.Files) > 1 && cand.predictAccept() {
-				h = cand
+	// real processes: fc's own handling of the argument list (main.fo). The multi-file histories of the
+	// first bases (a .foi between two .fo files included) go through the fc binary: accept/reject as the
+	// model says, gen_X.go next to each X.fo and nothing for a .foi, every definition's text as in the
+	// canonical single-file run, and the same bytes as the hooked in-process fc.
+	if c.Replay == "" {
+		type pj struct {
+			ji int
+			h  *c07History
+		}
+		var pjs []pj
+		for ji := 0; ji < len(jobs) && ji < c.Pick(12, 200); ji++ {
+			n := 0
+			for _, h := range jobs[ji].hs {
+				if len(h.Files) > 1 && (h.Kind == "foi-between" || n < 2) {
+					pjs = append(pjs, pj{ji, h})
+					n++
+				}
 			}
 		}
-		MustWrite(dir+"/mini.foi", MiniFoiText)
-		args := []string{"mini.foi"}
-		for _, f := range h.Files {
-			MustWrite(dir+"/"+f.Name, f.src())
-			args = append(args, f.Name)
-		}
-		r := c.Fc(dir, args...)
-		c.Count("real_process_runs")
-		if h.predictAccept() {
+		Parallel(len(pjs), func(k int) {
+			h := pjs[k].h
+			base := jobs[pjs[k].ji].base
+			dir := fmt.Sprintf("%s/proc%d", c.Work, k)
+			defer os.RemoveAll(dir)
+			canon := &c07History{Kind: "canonical", Files: []c07File{{Name: "all.fo", Defs: base}}}
+			co := c07RunProc(c, dir+"c", canon)
+			os.RemoveAll(dir + "c")
+			o := c07RunProc(c, dir, h)
+			c.Count("real_process_runs")
+			c.Count("real_process_history=" + h.Kind)
+			rep := map[string]any{"base": base, "histories": []*c07History{h}, "fc_output": trunc(o.err, 1500), "how": "fc mini.foi <files of the history in order> as a process"}
+			if !co.ok {
+				return // reported by the in-process run of the canonical history
+			}
+			if o.ok != h.predictAccept() {
+				if o.ok {
+					c.Violate("accept", "the fc process accepts a history with a reference to a definition not yet declared", rep, false)
+				} else {
+					c.Violate("reject", "the fc process rejects a dependency-respecting argument list ("+h.Kind+")", rep, false)
+				}
+				return
+			}
+			if !o.ok {
+				return
+			}
+			for _, f := range h.Files {
+				g := "gen_" + strings.TrimSuffix(f.Name, ".fo") + ".go"
+				_, has := o.files[g]
+				if strings.HasSuffix(f.Name, ".fo") && !has {
+					c.Violate("files", "missing output file "+g+" (fc process)", rep, false)
+				}
+				if !strings.HasSuffix(f.Name, ".fo") && Exists(dir+"/gen_"+strings.TrimSuffix(f.Name, ".foi")+".go") {
+					c.Violate("files", "a .foi argument produced an output file", rep, false)
+				}
+				for _, d := range f.Defs {
+					ref, inCanon := co.decls[d.Name]
+					if !inCanon {
+						continue
+					}
+					for key, t := range ref {
+						if o.decls[d.Name][key] != t {
+							c.Violate("decl", fmt.Sprintf("the Go emitted for %s (%s) by the fc process depends on the history (%s)", d.Name, key, h.Kind),
+								map[string]any{"base": base, "histories": []*c07History{h}, "canonical_text": t, "this_text": o.decls[d.Name][key]}, false)
+						}
+					}
+				}
+			}
 			s := pool.Get()
-			o := c07Run(s, h)
+			so := c07Run(s, h)
 			pool.Put(s)
-			for k, t := range o.files {
-				b, err := os.ReadFile(dir + "/" + k)
-				if r.Exit != 0 || err != nil || string(b) != t {
-					c.Violate("hook", "the fc process and the hooked in-process fc differ on a multi-file invocation", map[string]any{"broken": "fcsrv hook vs fc process", "histories": []*c07History{h}, "fc_output": r.Stdout}, true)
+			for g, t := range so.files {
+				if o.files[g] != t {
+					c.Violate("hook", "the fc process and the hooked in-process fc differ on a multi-file invocation", map[string]any{"broken": "fcsrv hook vs fc process", "histories": []*c07History{h}}, true)
 					break
 				}
 			}
-			if Exists(dir + "/gen_mini.go") {
-				c.Violate("files", "a .foi argument produced an output file", map[string]any{"histories": []*c07History{h}}, false)
-			}
-		}
+		})
+		c.Lap("processes")
 	}
 }
 
